@@ -90,6 +90,20 @@ pub enum Op {
     Quiesce,
     /// start a reader thread doing `n` full-range reads through &RaftLog
     Readers { n: u8, rounds: u8 },
+    /// C13: contender threads racing to open / dump / drop the same directory
+    Contenders { scripts: Vec<Vec<CAction>> },
+}
+
+#[derive(Clone, Debug, PartialEq, Eq, Serialize, Deserialize)]
+pub struct CAction {
+    /// open a Dump instead of a RaftLog
+    pub dump: bool,
+    /// scheduler steps to hold the directory when the open succeeded
+    pub hold: u8,
+    /// append + flush(wait) while owning (RaftLog only)
+    pub write: bool,
+    /// idle steps before the attempt
+    pub pause: u8,
 }
 
 impl Op {
@@ -118,6 +132,10 @@ impl Op {
             Op::WaitIdle => "wait_idle".into(),
             Op::Quiesce => "quiesce".into(),
             Op::Readers { n, rounds } => format!("readers({n}x{rounds})"),
+            Op::Contenders { scripts } => format!(
+                "contenders[{}]",
+                scripts.iter().map(|sc| sc.iter().map(|a| format!("{}{}h{}p{}", if a.dump { "D" } else { "O" }, if a.write { "w" } else { "" }, a.hold, a.pause)).collect::<Vec<_>>().join(",")).collect::<Vec<_>>().join(" | ")
+            ),
         }
     }
 }
